@@ -46,7 +46,7 @@ class C06(SessionProp):
     thorough_n = 40000
     rule = (
         "seeded streams of 1-5 complete outer TLVs: valid messages of every kind (to client and server, with "
-        "matching outstanding requests) of which 0-2 have a damaged interior (inner length edits, overruns, dropped "
+        "matching outstanding requests; 15% of the server streams arrive during a multi-step SASL bind) of which 0-2 have a damaged interior (inner length edits, overruns, dropped "
         "octets, truncation with a re-fitted envelope, known controls with short values), delivered whole, byte by "
         "byte or in random chunks; an independent framer that only reads identifier/length octets counts the complete "
         "units delivered after every call; non-trivial = a damaged unit or 2+ chunks"
@@ -77,8 +77,14 @@ class C06(SessionProp):
                 cs = msgs.g_controls(rng)
                 units.append(msgs.pack([i, op, cs]))
         else:
-            for i in range(1, n + 1):
-                units.append(msgs.pack([i, msgs.g_op(rng, rng.choice([3, 7, 7]), depth=rng.choice([0, 1, 2])), msgs.g_controls(rng)]))
+            first = 1
+            if rng.random() < 0.15:
+                # a multi-step SASL bind is in progress (answered with saslBindInProgress) when the units arrive
+                pre.append([RECV, msgs.pack([1, [0, 3, b"", [1, b"GSSAPI", [b"tok"]]], []])])
+                pre.append([sessions.S_BINDRESP, 1, [b"srv"], 14, b"", b"", []])
+                first = 2
+            for i in range(first, n + first):
+                units.append(msgs.pack([i, msgs.g_op(rng, rng.choice([3, 7, 7, 0]), depth=rng.choice([0, 1, 2])), msgs.g_controls(rng)]))
         for i in range(len(units)):
             if rng.random() < 0.3:
                 units[i] = mutate_interior(rng, units[i])
